@@ -14,5 +14,5 @@ if [ "$FULL" = "full" ]; then
   PYTHONPATH="$WT" timeout 1500 /venv/bin/python -m pytest -q -p no:cacheprovider --timeout=900 --continue-on-collection-errors -p no:randomly 2>&1 | grep -v "WARNING conda" | tail -4
 fi
 echo "--- ./check $PID (quick) on changed tree"
-cd /verif && NESSAI_REPO="$WT" ./check "$PID" --tier quick 2>&1 | grep -E "VIOLATION|KNOWN-FINDING|obligations|broken obligation" | cut -c1-260 | head -10
+cd /verif && NESSAI_REPO="$WT" ./check "$PID" --tier quick 2>&1 | grep -E "VIOLATION|KNOWN-FINDING|obligations|broken obligation" | cut -c1-260 | grep -v "^KNOWN-FINDING" | head -12
 cd "$WT" && git checkout -q -- nessai
